@@ -20,7 +20,8 @@ const char * const vh_reader_names[VR__N] = { "Int32", "UInt32", "Int64", "UInt6
     "Number", "Characters", "CopyText", "ArbitraryBlock", "Raw", "ArrayInt32", "ArrayUInt32", "ArrayInt64", "ArrayUInt64",
     "ArrayFloat", "ArrayDouble", "Expr", "RawChoice" };
 
-const scpi_choice_def_t vh_choices[] = { {"LOW", 1}, {"HIgh", 2}, {"MEDium", 3}, {"SOURce", 10}, SCPI_CHOICE_LIST_END };
+/* choice names are not header keywords: they may end in digits (CH1, TTL0) without being "keyword + numeric suffix" */
+const scpi_choice_def_t vh_choices[] = { {"LOW", 1}, {"HIgh", 2}, {"MEDium", 3}, {"SOURce", 10}, {"CH1", 21}, {"TTL0", 22}, {"EXTernal2", 23}, {"P25V", 24}, SCPI_CHOICE_LIST_END };
 
 /* ---- the SCPI_PARSER_VERIF hook ------------------------------------------------- */
 void scpi_verif_input_buffer(scpi_t * context, int phase);
